@@ -61,6 +61,12 @@ HIST = {
         'Sta8': [('peer', 'rq'), ('user', 'ac'), ('peer', 'relrq')],
         'Sta13': [('peer', 'rq'), ('user', 'ac'), ('peer', 'relrq'), ('user', 'relrp')],
         'Sta13b': [('peer', 'rq'), ('user', 'rj')],
+        # Sta13 reached through the provider's own abort actions (an A-ABORT has already been
+        # sent on this connection): AA-1 in Sta2, AA-8 in Sta6, AA-8 in Sta3, and AA-7 once
+        'Sta13c': [('peer', 'junk')],
+        'Sta13d': [('peer', 'rq'), ('user', 'ac'), ('peer', 'ac')],
+        'Sta13e': [('peer', 'rq'), ('peer', 'rq')],
+        'Sta13f': [('peer', 'rq'), ('user', 'rj'), ('peer', 'junk')],
         'Sta6p': [('peer', 'rq'), ('user', 'ac'), ('peer', 'part')],
         'Sta7p': [('peer', 'rq'), ('user', 'ac'), ('peer', 'part'), ('user', 'relrq')],
         'Sta10': [('peer', 'rq'), ('user', 'ac'), ('user', 'relrq'), ('peer', 'relrq')],
@@ -74,6 +80,8 @@ HIST = {
         'Sta7p': [('user', 'rq'), ('peer', 'ac'), ('peer', 'part'), ('user', 'relrq')],
         'Sta8': [('user', 'rq'), ('peer', 'ac'), ('peer', 'relrq')],
         'Sta13': [('user', 'rq'), ('peer', 'ac'), ('peer', 'relrq'), ('user', 'relrp')],
+        'Sta13d': [('user', 'rq'), ('peer', 'ac'), ('peer', 'ac')],
+        'Sta13e': [('user', 'rq'), ('peer', 'relrq')],
         'Sta9': [('user', 'rq'), ('peer', 'ac'), ('user', 'relrq'), ('peer', 'relrq')],
         'Sta11': [('user', 'rq'), ('peer', 'ac'), ('user', 'relrq'), ('peer', 'relrq'),
                   ('user', 'relrp')],
@@ -107,7 +115,7 @@ def cases(tier, seed):
                         continue
                     if pending and event == 'Evt10' and var != 'pdata-rest':
                         continue        # a second message inside an open one is DIMSE garbage (C12)
-                    yield dict(role=role, state=hname.rstrip('bp'), event=event, var=var,
+                    yield dict(role=role, state=hname.rstrip('bcdefp'), event=event, var=var,
                                timer='asis', route='history:' + hname)
 
 
@@ -119,7 +127,8 @@ def _lib_pdu(raw):
 
 def _peer_raw(name):
     return {'rq': RAW['Evt6'][0][1], 'ac': RAW['Evt3'][0][1], 'relrq': RAW['Evt12'][0][1],
-            'relrp': RAW['Evt13'][0][1], 'part': RAW['Evt10'][1][1]}[name]
+            'relrp': RAW['Evt13'][0][1], 'part': RAW['Evt10'][1][1],
+            'junk': b'\x09\x00\x00\x00\x00\x02\x00\x00'}[name]
 
 
 def _user_prim(name):
